@@ -74,6 +74,9 @@ def parse_trace(raw, T):
     return sessions, skipped, unparsed, len(stack)
 
 
+STRUCTURED = []
+
+
 def gen_docs(rng, tier, names):
     kinds = list(REP.keys())
     docs = []
@@ -83,7 +86,10 @@ def gen_docs(rng, tier, names):
         for seq in itertools.product(kinds, repeat=n):
             docs.append("\n".join(REP[k] for k in seq) + "\n")
     # continuation lines of containers in every indentation spelling (spaces, tab, space-before-tab ...) after an empty line
-    for opener in ["- item", "1. item", "[^fn]: note", "Term\n: def", "> quote", "* a\n    * nested", "[?gl]: glossary", "[#c]: cite"]:
+    # (definitions are preceded by a paragraph that uses them: an unused definition is never exported)
+    USE = "Use[^fn] [?gl] [#c] [ABB] [l].\n\n"
+    for opener in ["- item", "1. item", USE + "[^fn]: note", "Term\n: def", "> quote", "* a\n    * nested", USE + "[?gl]: glossary", USE + "[#c]: cite",
+                   USE + "[>ABB]: abbreviation", USE + "[l]: http://example.com/"]:
         for ind in ["    ", "\t", "  \t", " \t", "   \t", "    \t", "\t  ", "     ", "        "]:
             for content in ["code", "* nested", "1. n", "> q", "# h", "text", "```", "| a | b |", "|---|", "| a |\n" + ind + "|---|\n" + ind + "| 1 |"]:
                 docs.append("%s\n\n%s%s\n" % (opener, ind, content))
@@ -92,6 +98,8 @@ def gen_docs(rng, tier, names):
     for marker in ["* ", "+ ", "- ", "1. ", "> ", "[^fn]: ", ": "]:
         for first in ["|", "|-|", "a | b", "| a | b |", "|:-:|", "a | b\n  |---|---|\n  | 1 | 2 |", "a | b\n    |---|---|\n    | 1 | 2 |"]:
             docs.append(("Term\n" if marker == ": " else "") + marker + first + "\n")
+    global STRUCTURED
+    STRUCTURED = docs[sum(len(kinds) ** n for n in range(1, L + 1)):]       # the container / continuation documents: all of them go through the writers
     # random longer documents
     pool = [REP[k] for k in kinds] + EXTRA
     for _ in range(1500 if tier == "quick" else 40000):
@@ -109,6 +117,11 @@ def run(rep, tier, seed):
         tr_err = str(e)
         T = json.load(open(os.path.join(BUILD, "gen", "parser_tables.json"))) if os.path.exists(os.path.join(BUILD, "gen", "parser_tables.json")) else None
         kinds = T["line_kinds"] if T else []
+    wtr_err = None
+    try:
+        tr_writers.main()              # (before the proofs are checked: gen/WriterCases.v must describe the current sources)
+    except tr_lemon.TranslateError as e:
+        wtr_err = str(e)
     res = common.coq_prove("Properties_C02") if not tr_err else dict(ok=False, theorems=["parser_reachable_finite", "parser_never_errors", "parser_stack_bounded"], failed=["translator: " + tr_err], assumptions={}, output=tr_err)
     rep.add_obligations(res, "Properties_C02")
     har = common.build_harness("asan", "ptrace")
@@ -155,10 +168,8 @@ def run(rep, tier, seed):
             if m != ev:
                 bad.append((d, "model-vs-impl", "correspondence broken: lib/Lemon.v + regenerated tables vs parser.c on inputs %s" % (list(k),), dict(inputs=list(k), events=ev.split(), model=m)))
     # --- (b) writers: translator + T-chk runs
-    try:
-        tr_writers.main()
-    except tr_lemon.TranslateError as e:
-        bad.append(("", "writer-translator", "tools/tr_writers.py no longer recognises the writers: %s" % e, None))
+    if wtr_err:
+        bad.append(("", "writer-translator", "tools/tr_writers.py no longer recognises the writers: %s" % wtr_err, None))
     wbad, wruns = writers_tchk(rng, tier, docs)
     bad += wbad
     rep.cov["writer_runs"] = wruns
@@ -197,7 +208,7 @@ def writers_tchk(rng, tier, docs):
     """T-chk (testing, not proof): run documents through every writer in MMD and compatibility mode in a
     forked child; the conversion must return, the process must survive, and no escape may be reported."""
     har = common.build_harness("asan", "conv")
-    pick = rng.sample(docs, min(len(docs), 250 if tier == "quick" else 4000))
+    pick = rng.sample(docs, min(len(docs), 250 if tier == "quick" else 4000)) + (STRUCTURED if tier != "quick" else STRUCTURED[::3])
     pick += [gen_md.mixed(rng) for _ in range(350 if tier == "quick" else 6000)]
     cases, meta = [], []
     for d in pick:
